@@ -209,6 +209,8 @@ func observe(ctx context.Context, c *Case, pi Pi) map[string]string {
 					bcfg, _ := checkx.BreakingConfig("v2", permuted([]string{"FILE", "WIRE_JSON", "PACKAGE"}, pi.ArgSeed), nil, nil, nil, false)
 					cl, _ := checkx.Client()
 					out["breaking"] = errString(cl.Breaking(ctx, bcfg, img, oimg))
+					// and the other way round: what the edits deleted shows up as deleted
+					out["breaking-reverse"] = errString(cl.Breaking(ctx, bcfg, oimg, img))
 				}
 			}
 		}
